@@ -21,7 +21,7 @@ func familiesFor(prop string) []Family {
 	case "C09":
 		return []Family{{"total", 5, famTotal}}
 	case "C10":
-		return []Family{{"alias", 5, famAlias}}
+		return []Family{{"alias", 4, famAlias}, {"frame", 2, famFrame}}
 	case "C11":
 		return []Family{{"train", 4, famTrain}}
 	case "C12":
